@@ -12,11 +12,11 @@ void create() { seteuid(getuid()); }
 
 string hexs(string s) { return to_hex(s); }
 
-// canonical tagged encoding of a value (JSON): ints as decimal strings, floats as %g text
+// canonical tagged encoding of a value (JSON): ints as decimal strings, floats as 6 significant digits (vfloat)
 string enc(mixed v) {
   string s; int i; mixed *k;
   if (intp(v)) return "{\"t\":\"int\",\"v\":\"" + v + "\"}";
-  if (floatp(v)) return "{\"t\":\"float\",\"v\":\"" + sprintf("%g", v) + "\"}";
+  if (floatp(v)) return "{\"t\":\"float\",\"v\":\"" + vfloat(v) + "\"}";
   if (stringp(v)) return "{\"t\":\"str\",\"v\":\"" + to_hex(v) + "\"}";
   if (classp(v)) return "{\"t\":\"class\",\"v\":\"?\"}";
   if (arrayp(v)) {
